@@ -16,6 +16,7 @@ import (
 	"io"
 	"net"
 	"net/http"
+	"os"
 	"time"
 
 	"github.com/talostrading/sonic"
@@ -51,9 +52,10 @@ func wshsDirect(seed uint64, tier string, args []string, w *bufio.Writer) {
 	}
 
 	onlyAsync := len(args) > 0 && args[0] == "only=async-failure"
+	onlySecond := len(args) > 0 && args[0] == "only=second-session"
 	// 1. failing TLS dials
 	variants := []string{"refused", "closed-during-tls-setup"}
-	if onlyAsync {
+	if onlyAsync || onlySecond {
 		variants = nil
 	}
 	for _, variant := range variants {
@@ -110,7 +112,7 @@ func wshsDirect(seed uint64, tier string, args []string, w *bufio.Writer) {
 
 	// 2. the first frame arrives later than the dial timeout after the connection was made
 	func() {
-		if onlyAsync {
+		if onlyAsync || onlySecond {
 			return
 		}
 		defer func() {
@@ -139,6 +141,239 @@ func wshsDirect(seed uint64, tier string, args []string, w *bufio.Writer) {
 		}
 		_ = ws.CloseNextLayer()
 	}()
+	// 2b. a second session on the same Stream closes like a first one: whatever ended the first session (our Close, the echo of the
+	// peer's Close, a protocol violation), in the second one a framing violation is answered with a Close 1002 on the wire, an
+	// ordinary Close() sends its Close frame, and the peer's Close is echoed
+	upgradeOnly := func(c net.Conn) bool {
+		req, err := http.ReadRequest(bufio.NewReader(c))
+		if err != nil {
+			return false
+		}
+		h := sha1.Sum([]byte(req.Header.Get("Sec-WebSocket-Key") + "258EAFA5-E914-47DA-95CA-C5AB0DC85B11"))
+		_, err = fmt.Fprintf(c, "HTTP/1.1 101 Switching Protocols\r\nUpgrade: websocket\r\nConnection: Upgrade\r\nSec-WebSocket-Accept: %s\r\n\r\n",
+			base64.StdEncoding.EncodeToString(h[:]))
+		return err == nil
+	}
+	// the server side of one session: after the upgrade it sends `send`, then collects what the client writes until a Close frame
+	// or `wait` has passed
+	session := func(ln net.Listener, send []byte, wait time.Duration, got chan<- []wireFrame) {
+		c, err := ln.Accept()
+		if err != nil {
+			got <- nil
+			return
+		}
+		defer c.Close()
+		if !upgradeOnly(c) {
+			got <- nil
+			return
+		}
+		if len(send) > 0 {
+			_, _ = c.Write(send)
+		}
+		var all []byte
+		buf := make([]byte, 4096)
+		deadline := time.Now().Add(wait)
+		for time.Now().Before(deadline) {
+			_ = c.SetReadDeadline(time.Now().Add(50 * time.Millisecond))
+			n, err := c.Read(buf)
+			all = append(all, buf[:n]...)
+			frames, _ := wsParseWire(all)
+			for _, f := range frames {
+				if f.op == 8 {
+					got <- frames
+					return
+				}
+			}
+			if err != nil && !os.IsTimeout(err) {
+				break
+			}
+		}
+		frames, _ := wsParseWire(all)
+		got <- frames
+	}
+	closeCode := func(frames []wireFrame) int {
+		for _, f := range frames {
+			if f.op == 8 && len(f.payload) >= 2 {
+				return int(f.payload[0])<<8 | int(f.payload[1])
+			}
+			if f.op == 8 {
+				return 0
+			}
+		}
+		return -1
+	}
+	secondSession := !onlyAsync
+	for _, first := range []string{"our-close", "peer-close", "violation"} {
+		for _, second := range []string{"violation", "our-close", "peer-close"} {
+			if !secondSession {
+				break
+			}
+			func() {
+				defer func() {
+					if p := recover(); p != nil {
+						fail("second-session-close", "first session ended by %s, second by %s: panicked: %v", first, second, p)
+					}
+				}()
+				ws, err := websocket.NewWebsocketStream(ioc, nil, websocket.RoleClient)
+				if err != nil {
+					return
+				}
+				run := func(how string) (int, bool) {
+					ln, err := net.Listen("tcp", "127.0.0.1:0")
+					if err != nil {
+						return 0, false
+					}
+					defer ln.Close()
+					var send []byte
+					switch how {
+					case "peer-close":
+						send = []byte{0x88, 0x02, 0x03, 0xe9} // Close 1001
+					case "violation":
+						send = []byte{0xc1, 0x01, 'x'} // RSV1 set on a text frame
+					}
+					got := make(chan []wireFrame, 1)
+					go session(ln, send, 1500*time.Millisecond, got)
+					if err := ws.Handshake("ws://" + ln.Addr().String() + "/"); err != nil {
+						<-got
+						return 0, false
+					}
+					switch how {
+					case "our-close":
+						_ = ws.Close(websocket.CloseNormal, "bye")
+					default:
+						_, _ = ws.NextFrame()
+						_ = ws.Flush()
+					}
+					frames := <-got
+					_ = ws.CloseNextLayer()
+					return closeCode(frames), true
+				}
+				if _, ok := run(first); !ok {
+					return
+				}
+				code, ok := run(second)
+				if !ok {
+					fail("second-session-close", "handshake of the second session failed (first session ended by %s)", first)
+					return
+				}
+				want := map[string]int{"violation": 1002, "our-close": 1000, "peer-close": 1001}[second]
+				if code != want {
+					fail("second-session-close", "first session ended by %s; in the second one (%s) the server received Close code %d (-1: no Close frame), want %d", first, second, code, want)
+				}
+			}()
+		}
+	}
+
+	// 2c. the peer starts the closing handshake (a Ping, then its Close), the application reads both at frame level and then calls
+	// the blocking Close itself, before anything was flushed: the Pong and the echo of the peer's Close still go out
+	if secondSession {
+		func() {
+			defer func() {
+				if p := recover(); p != nil {
+					fail("second-session-close", "Close() after the peer's Close panicked: %v", p)
+				}
+			}()
+			ws, err := websocket.NewWebsocketStream(ioc, nil, websocket.RoleClient)
+			if err != nil {
+				return
+			}
+			ln, err := net.Listen("tcp", "127.0.0.1:0")
+			if err != nil {
+				return
+			}
+			defer ln.Close()
+			got := make(chan []wireFrame, 1)
+			go session(ln, []byte{0x89, 0x02, 'h', 'b', 0x88, 0x02, 0x03, 0xe9}, 1500*time.Millisecond, got)
+			if err := ws.Handshake("ws://" + ln.Addr().String() + "/"); err != nil {
+				<-got
+				return
+			}
+			_, _ = ws.NextFrame()
+			_, _ = ws.NextFrame()
+			_ = ws.Close(websocket.CloseNormal, "late")
+			_ = ws.Flush()
+			frames := <-got
+			pong := false
+			for _, f := range frames {
+				if f.op == 10 && string(f.payload) == "hb" {
+					pong = true
+				}
+			}
+			if code := closeCode(frames); code != 1001 || !pong {
+				fail("second-session-close", "peer sent Ping and Close(1001); after NextFrame x2, Close(), Flush() the server received pong=%v and Close code %d (-1: none), want the Pong and the echo 1001", pong, code)
+			}
+			_ = ws.CloseNextLayer()
+		}()
+	}
+
+	// 2d. a Stream whose previous session received large frames (its read buffer grew to megabytes) is handshaken again: the new
+	// session reads like a fresh one — a frame the new server sends a moment after its response is delivered
+	if secondSession {
+		func() {
+			defer func() {
+				if p := recover(); p != nil {
+					fail("rehandshake", "re-handshake after a session with large frames panicked: %v", p)
+				}
+			}()
+			ws, err := websocket.NewWebsocketStream(ioc, nil, websocket.RoleClient)
+			if err != nil {
+				return
+			}
+			ws.SetMaxMessageSize(4 << 20)
+			ln, err := net.Listen("tcp", "127.0.0.1:0")
+			if err != nil {
+				return
+			}
+			defer ln.Close()
+			big := make([]byte, 0, 3<<20)
+			for _, n := range []int{1<<20 + 300000, 600000, 600000} {
+				big = append(big, 0x82, 127, 0, 0, 0, 0, byte(n>>24), byte(n>>16), byte(n>>8), byte(n))
+				big = append(big, make([]byte, n)...)
+			}
+			got := make(chan []wireFrame, 1)
+			go session(ln, big, 400*time.Millisecond, got)
+			if err := ws.Handshake("ws://" + ln.Addr().String() + "/"); err != nil {
+				<-got
+				return
+			}
+			for i := 0; i < 3; i++ {
+				if f, err := ws.NextFrame(); err != nil || f.PayloadLength() < 600000 {
+					fail("rehandshake", "large frame %d of the first session: err=%v", i, err)
+					<-got
+					return
+				}
+			}
+			<-got
+			_ = ws.CloseNextLayer()
+			ln2, err := net.Listen("tcp", "127.0.0.1:0")
+			if err != nil {
+				return
+			}
+			defer ln2.Close()
+			go serve(ln2, 150*time.Millisecond)
+			if err := ws.Handshake("ws://" + ln2.Addr().String() + "/"); err != nil || ws.State() != websocket.StateActive {
+				fail("rehandshake", "handshake after a session with large frames: err=%v state=%v", err, ws.State())
+				return
+			}
+			done, payload := false, ""
+			var rerr error
+			ws.AsyncNextFrame(func(err error, f websocket.Frame) {
+				done, rerr = true, err
+				if err == nil {
+					payload = string(f.Payload())
+				}
+			})
+			deadline := time.Now().Add(2 * time.Second)
+			for !done && time.Now().Before(deadline) {
+				_ = ioc.RunOneFor(5 * time.Millisecond)
+			}
+			if !done || rerr != nil || payload != "hi" {
+				fail("rehandshake", "after a session that received frames of 0.6-1.3 MiB the same Stream was handshaken again; the frame its new server sent 150 ms after the response: delivered=%v err=%v payload=%q", done, rerr, payload)
+			}
+			_ = ws.CloseNextLayer()
+		}()
+	}
+
 	// 3. AsyncHandshake whose upgrade is refused (the server answers 400 and keeps the connection): the completion is posted to the
 	// loop by the dialling goroutine; the failure callback handshakes again on the same Stream, at once, with a conforming server.
 	// The new session must work — and, in the race-detector build of this monitor (property C05), the dialling goroutine must be
@@ -146,6 +381,9 @@ func wshsDirect(seed uint64, tier string, args []string, w *bufio.Writer) {
 	rounds := 6
 	if onlyAsync {
 		rounds = 30
+	}
+	if onlySecond {
+		rounds = 0
 	}
 	for round := 0; round < rounds; round++ {
 		func() {
